@@ -159,6 +159,13 @@ impl Property for C15 {
             })
             .exhaustive(),
         );
+        v.push(Family::new("embedded-in-programs", ctx.tier.pick(200, 3000), |_c, rng, emit| {
+            for _ in 0..50 {
+                if !emit(json!({"kind": "sem-pp", "seed": rng.next() >> 16, "n": 2 + rng.below(7), "opts": "clean"})) {
+                    return;
+                }
+            }
+        }));
         v.push(Family::new("random-deep", ctx.tier.pick(40, 400), |_c, rng, emit| {
             for _ in 0..250 {
                 let mut codes = Vec::new();
@@ -184,6 +191,7 @@ impl Property for C15 {
                 };
                 check(&items, &render(&items, nl))
             }
+            Some("sem-pp") => embedded(case),
             Some("pp-nameless") => {
                 let Some(text) = case["text"].as_str() else { return Verdict::Skip("malformed-case") };
                 let (_, nerr) = nontrivia_tokens(text);
@@ -195,4 +203,74 @@ impl Property for C15 {
             _ => Verdict::Skip("malformed-case"),
         }
     }
+}
+
+/// conditional regions between the top-level statements of a well-formed program: disabled text
+/// (declarations with semantic and syntactic faults) must produce neither outline entries nor
+/// diagnostics, enabled text must be analysed as if the directives were not there
+fn embedded(case: &Case) -> Verdict {
+    let Some(p) = super::semcase::program_of(case) else { return Verdict::Skip("malformed-case") };
+    let mut rng = Rng::new(digest(case) ^ 0x15);
+    const STARTS: [&str; 11] = ["class ", "def ", "defvar ", "foreach ", "if ", "let ", "defset ", "multiclass ", "defm ", "assert ", "dump "];
+    let root = &p.files[0].1;
+    let mut out = String::new();
+    let mut enabled: Vec<String> = Vec::new();
+    let mut k = 0;
+    let mut prev_is_comment = false;
+    let mut prev_complete = true;
+    let mut regions = 0;
+    for line in root.split_inclusive('\n') {
+        let at_top = STARTS.iter().any(|s| line.starts_with(s));
+        if at_top && !prev_is_comment && prev_complete && rng.chance(1, 3) {
+            k += 1;
+            regions += 1;
+            match rng.below(4) {
+                0 => out.push_str(&format!("#ifdef UNDEF_{k}\ndef DISABLED_{k} : NoSuchClass {{ int x = ; }}\nclass DISABLED_C{k} : ;\n#endif\n")),
+                1 => {
+                    out.push_str(&format!("#ifdef UNDEF_{k}\ndef DISABLED_{k} : NoSuchClass;\n#else\ndef ENABLED_{k};\n#endif\n"));
+                    enabled.push(format!("ENABLED_{k}"));
+                }
+                2 => {
+                    out.push_str(&format!("#define DEF_{k}\n#ifdef DEF_{k}\ndef ENABLED_{k};\n#else\ndef DISABLED_{k} = ;\n#endif\n"));
+                    enabled.push(format!("ENABLED_{k}"));
+                }
+                _ => {
+                    out.push_str(&format!("#ifndef UNDEF_{k}\n#ifdef UNDEF_{k}\ninclude \"nowhere.td\"\n#else\ndef ENABLED_{k};\n#endif\n#else\n#ifndef X\ndef DISABLED_{k};\n#endif\n#endif\n"));
+                    enabled.push(format!("ENABLED_{k}"));
+                }
+            }
+        }
+        out.push_str(line);
+        let t = line.trim_start();
+        prev_is_comment = t.starts_with("//") || t.starts_with("/*");
+        let e = line.trim();
+        // a statement boundary: the last significant line (not blank, not a comment) closed a statement
+        if !(e.is_empty() || prev_is_comment) {
+            prev_complete = e.ends_with('}') || e.ends_with(';') || e.starts_with("include ");
+        }
+    }
+    let mut files = p.files.clone();
+    files[0].1 = out.clone();
+    let base = crate::ws::Workspace::new(&p.files, &p.files[0].0);
+    let ws = crate::ws::Workspace::new(&files, &files[0].0);
+    let a = ws.analysis();
+    let diags: Vec<String> = a.diagnostics().values().flatten().map(|d| format!("{:?} {}", crate::ws::r2(d.location.range), d.message)).collect();
+    if !diags.is_empty() {
+        return Verdict::Fail(Failure::plain("C15.diagnostic-from-disabled-text", format!("diagnostics {diags:?} for\n{out}")));
+    }
+    let names = |w: &crate::ws::Workspace| -> Vec<String> { w.analysis().document_symbol(w.root).unwrap_or_default().iter().map(|s| s.name.to_string()).collect() };
+    let got = names(&ws);
+    let want_base = names(&base);
+    if got.iter().any(|n| n.starts_with("DISABLED")) {
+        return Verdict::Fail(Failure::plain("C15.declaration-from-disabled-text", format!("outline {got:?} lists a declaration of a disabled region\n{out}")));
+    }
+    let mut got_enabled: Vec<String> = got.iter().filter(|n| n.starts_with("ENABLED")).cloned().collect();
+    let rest: Vec<String> = got.iter().filter(|n| !n.starts_with("ENABLED")).cloned().collect();
+    got_enabled.sort();
+    let mut want_enabled = enabled.clone();
+    want_enabled.sort();
+    if got_enabled != want_enabled || rest != want_base {
+        return Verdict::Fail(Failure::plain("C15.enabled-text-not-analysed", format!("outline {got:?}; expected the enabled markers {enabled:?} and the program's own {want_base:?}\n{out}")));
+    }
+    Verdict::Pass { nontrivial: regions >= 2, labels: vec!["embedded"] }
 }
